@@ -71,7 +71,16 @@ pub fn titles_for(lang: &str) -> Vec<&'static str> {
 
 pub const SEPARATORS: &[&str] = &[" ", "  ", "\u{a0}", "-", "–", "—", ".", ",", ";", ":", "!", "?", "&", "(", ")", "'", "\"", "$", "#", "\0", "\t", " - ", ", "];
 
-pub const ALPHABETS: &[&str] = &["abc", "abcde", "aeb1", "xyzaeo", "аеёбв", "aäoößs", "eéèêc", "ab-"];
+pub const ALPHABETS: &[&str] = &[
+    "abc", "abcde", "aeb1", "xyzaeo", "аеёбв", "aäoößs", "eéèêc", "ab-",
+    // code points that agree in their low 7, 8 or 16 bits (tables indexed by a truncated char,
+    // keys that pack chars into too few bits): a/á s/ó, a/š b/Ţ, b c with U+D7CE / U+1D7CE
+    "asáóx", "abšŢx", "bcx\u{d7ce}\u{1d7ce}", "ab\u{10061}\u{10062}\u{61}",
+    // digits and the letters they alias under a 6-bit fold (0/p .. 9/y)
+    "pqrstuvwxy0123456789",
+    // characters that are invisible in print but are ordinary characters of a word
+    "ab\u{ad}\u{200b}\u{200d}\u{2060}\u{feff}c",
+];
 
 /// A synthetic word over a small alphabet: forces shared grams, duplicate titles, cap overflow.
 pub fn synth_word(rng: &mut Rng, alphabet: &str, min: usize, max: usize) -> String {
@@ -287,6 +296,18 @@ pub fn separator_query(rng: &mut Rng) -> String {
         return String::new();
     }
     let n = rng.range(1, 4);
+    if rng.chance(1, 3) {
+        // any characters that are neither letters nor digits (below U+3000)
+        return (0..n)
+            .map(|_| loop {
+                if let Some(c) = char::from_u32(rng.below(0x3000) as u32) {
+                    if !c.is_alphanumeric() {
+                        break c;
+                    }
+                }
+            })
+            .collect();
+    }
     (0..n).map(|_| *rng.pick(SEPARATORS)).collect()
 }
 
